@@ -102,6 +102,7 @@ def canon_segment(seg):
 def monitor(ctx, ops, segs, src):
     """the property on the firmware trace, call by call"""
     sounding = False
+    prev_last = None
     for i, (op, seg) in enumerate(zip(ops, segs)):
         evs = [l.split(" ") for l in seg if l.split(" ")[0] in ("tone", "notone", "delay")]
         pr = [l for l in seg if l.startswith("println ")]
@@ -175,6 +176,14 @@ def monitor(ctx, ops, segs, src):
             want_d = [b * beat for _, b in score["sequence"] if b * beat >= 1]
             if len(delays) != len(want_d) or any(abs(a - b) > 1.0 for a, b in zip(delays, want_d)):
                 ctx.fail("buzzer:melody-durations", f"melody {op[1]} delays {delays}, expected about {want_d}", replay)
+        # get_last_frequency() reports the tone LAST SOUNDED: a call during which the pin started no tone cannot change it
+        if len(pr) == 3:
+            cur_last = pr[2].split(" ")[1]
+            if prev_last is not None and not tones and cur_last != prev_last:
+                ctx.fail("buzzer:last-frequency-changed-without-a-tone", f"{op[0]} started no tone but get_last_frequency() went from {prev_last} to {cur_last}", replay)
+            prev_last = cur_last
+        else:
+            prev_last = None
         if len(pr) == 3 and op[0] == "pt" and op[2] is None and float(op[1].v) > 0:
             f = common.f32(ds.f32r(float(op[1].v)))
             if pr[1].split(" ")[1] != f or pr[2].split(" ")[1] != f or not state:
